@@ -112,8 +112,8 @@ _Bool spec_all_differ_but(const struct Position *p, int but)
                              '  G_I = nondet_int(); G_J = nondet_int(); G_ONLY = nondet_int(); G_TWO = nondet_bool(); G_ONE = nondet_bool(); G_AM1 = nondet_bool(); G_NONE = nondet_bool();\n'
                              '  %s(&P);' % DRW + CANARY + '}\n')
     kwd = dict(common); kwd['pre_text'] = hdecl2
-    out.append(Job('is_draw', TUS7, [DRW], h, 'h_h', contracts={DRW: c_drw, TF: c_tf, R50: C[R50], ENO: C[ENO]}, nobody=[TF, R50, ENO], enforce=DRW, replace=[TF, R50, ENO],
-                   timeout=1200, note='is_draw == fifty-move rule or threefold repetition or insufficient material, over the contracts of the three predicates', **kwd))
+    out.append(Job('is_draw', TUS7, [DRW], h, 'h_h', contracts={DRW: c_drw, TF: c_tf}, nobody=[TF], enforce=DRW, replace=[TF],
+                   unwindset=loops_unwind([('verif_find', 6)]), timeout=1800, note='is_draw == fifty-move rule or threefold repetition or insufficient material, over the contracts of the three predicates', **kwd))
     for fn, nm, cc, lc in ((REP, 'is_repeated', c_rep, lc_rep), (TF, 'threefold_repetition', c_tf, lc_tf)):
         h = HSPEC + ALLD + ND + ('void h_h(void) { struct Position P = nondet_Position(); W_P = P;\n'
                                  '  G_I = nondet_int(); G_J = nondet_int(); G_ONLY = nondet_int(); G_TWO = nondet_bool(); G_ONE = nondet_bool(); G_AM1 = nondet_bool(); G_NONE = nondet_bool();\n'
